@@ -861,6 +861,9 @@ func run(c *lib.Ctx) {
 									c.Violation(k, d, cs)
 								}
 								c.Count("cases", 1)
+								if unit%1999 == 0 && ct == al.cts[0] && b == bodies[0] {
+									c.Sample(cs)
+								}
 							}
 						}
 					}
